@@ -180,7 +180,7 @@ def e2e_pairs(res, tier, seed):
     p = subprocess.run(["cargo", "build", "--offline", "--workspace", "--bins", "--keep-going", "--message-format=json"], cwd=root,
                        env=cargo_env(), stdout=subprocess.PIPE, stderr=subprocess.PIPE, text=True, timeout=3600)
     built, errors = {}, {}
-    for line in p.stdout.splitlines():
+    for line in p.stdout.split("\n"):
         try:
             m = json.loads(line)
         except ValueError:
@@ -203,7 +203,7 @@ def e2e_pairs(res, tier, seed):
                     bn, "\n".join(errors.get(bn, []))[:2500]), {"project": gen.project_to_jsonable(proj), "root": root})
                 continue
             out = subprocess.run([built[bn]], stdout=subprocess.PIPE, stderr=subprocess.PIPE, timeout=300)
-            nlines = len([l for l in out.stdout.decode("utf-8", "replace").splitlines() if l.startswith("{")])
+            nlines = len([l for l in out.stdout.decode("utf-8", "replace").split("\n") if l.startswith("{")])
             res.ev(nlines)
             res.count("positive-calls-rendered", nlines)
             if out.returncode != 0 or nlines != info:
